@@ -684,6 +684,53 @@ def product3RawCancel {n0 n1 n2} (w0 : Opinion α n0) (w1 : Opinion α n1) (w2 :
   let b : Tab α (n0 * n1 * n2) := Vector.ofFn fun k => p[k] - a[k] * u
   ⟨b, u, a⟩
 
+/-! Products after repair abca806, before repair b817f74: the joint belief masses `p[d] - a[d] * u` WITHOUT the clamp at
+    zero.  For the cell that attains the minimum the exact mass is `b0*b1` (often 0); `p` (outer product of the
+    projections, each renormalised by its own sum) and `a*u` round differently and the residue reached -1.5 .. -4.5 eps,
+    below the validators' -eps: the unlabelled products panicked in `Opinion::new` ("b[..] ∈ [0,1] is not satisfied"), the
+    labelled ones (`Opinion::normalized`, no validation) returned the negative mass. -/
+/-- the part shared by `Product2` of both families after repair abca806, before repair b817f74 -/
+def product2NoClamp {n0 n1} (w0 : Opinion α n0) (w1 : Opinion α n1) : Opinion α (n0 * n1) :=
+  let p := outer2 w0.projection w1.projection
+  let a := outer2 w0.a w1.a
+  let u := Tab.reduceL Scalar.min
+    (((List.finRange (n0 * n1)).filter fun k => Scalar.gt a[k] Scalar.zero).map fun k => prodCand2 w0 w1 (idx2 k))
+    (Tab.nanOf α)
+  let b : Tab α (n0 * n1) := Vector.ofFn fun k => p[k] - a[k] * u
+  ⟨b, u, a⟩
+
+/-- the part shared by `Product3` of both families after repair abca806, before repair b817f74 -/
+def product3NoClamp {n0 n1 n2} (w0 : Opinion α n0) (w1 : Opinion α n1) (w2 : Opinion α n2) :
+    Opinion α (n0 * n1 * n2) :=
+  let p := outer3 w0.projection w1.projection w2.projection
+  let a := outer3 w0.a w1.a w2.a
+  let u := Tab.reduceL Scalar.min
+    (((List.finRange (n0 * n1 * n2)).filter fun k => Scalar.gt a[k] Scalar.zero).map fun k =>
+      prodCand3 w0 w1 w2 (idx3 k))
+    (Tab.nanOf α)
+  let b : Tab α (n0 * n1 * n2) := Vector.ofFn fun k => p[k] - a[k] * u
+  ⟨b, u, a⟩
+
+/-- unlabelled `Product2` before repair b817f74 (validated by `Opinion::new`, error ≙ panic) -/
+def product2UNoClamp {n0 n1} (w0 : Opinion α n0) (w1 : Opinion α n1) : Except Label (Opinion α (n0 * n1)) :=
+  let r := product2NoClamp w0 w1
+  Opinion.tryNew r.b r.u r.a
+
+def product3UNoClamp {n0 n1 n2} (w0 : Opinion α n0) (w1 : Opinion α n1) (w2 : Opinion α n2) :
+    Except Label (Opinion α (n0 * n1 * n2)) :=
+  let r := product3NoClamp w0 w1 w2
+  Opinion.tryNew r.b r.u r.a
+
+/-- labelled `Product2` before repair b817f74 (`Opinion::normalized`: base rate renormalised, nothing validated) -/
+def product2LNoClamp {n0 n1} (w0 : Opinion α n0) (w1 : Opinion α n1) : Opinion α (n0 * n1) :=
+  let r := product2NoClamp w0 w1
+  ⟨r.b, r.u, normalizeProbDist r.a⟩
+
+def product3LNoClamp {n0 n1 n2} (w0 : Opinion α n0) (w1 : Opinion α n1) (w2 : Opinion α n2) :
+    Opinion α (n0 * n1 * n2) :=
+  let r := product3NoClamp w0 w1 w2
+  ⟨r.b, r.u, normalizeProbDist r.a⟩
+
 /-! `MaxUncertainty::uncertainty_maximized` before repair f029db5: the result `b' = p - a*u'` was returned through
     `Simplex::new_unchecked`; `sum(b') + u' = 1 - u' * (sum(a) - 1)`, so a base rate whose float sum is 1+2eps..1+4eps
     (accepted by the constructors) gives a simplex that `Simplex::try_new` rejects -/
